@@ -143,7 +143,7 @@ def run(rep, tier):
     rep.assumptions += ['the graph builder Graph::from_dem and the hypergraph search are tied by the exhaustive oracle, not modelled in Coq; '
                         'the instantiation of bfs_nearest with the search\'s successor function is not assembled']
     rng = rep.rng()
-    N = 500 if quick else 20000
+    N = 1500 if quick else 20000
     for _ in range(N):
         glike = rng.random() < 0.6
         text = gen_small_dem(rng, glike)
